@@ -246,7 +246,8 @@ Definition entry_asc (data : list N) : eres asc :=
 
 (* ------------------------------------------------------------------ the slice-reader decoders *)
 (* mp4.DecodeBoxSR / DecodeHeaderSR / DecodeAudioSampleEntrySR / DecodeEsdsSR: one FixedSliceReader
-   runs over the whole input; no per-box body slices.  Same modelled path as decode_entry. *)
+   runs over the whole input; no per-box body slices except for the payload of the esds box (repo fix
+   27ea537).  Same modelled path as decode_entry. *)
 Definition decode_box_header_sr (s : sr) : eres (list N * N * sr) :=
   edo (size, s) <- r_u32 s;
   edo (name, s) <- r_take 4 s;
@@ -274,8 +275,12 @@ Definition decode_entry_sr (data : list N) : eres entry :=
       if negb (list_eqb cname fourcc_esds) then EUnmodelled
       else if lenN (fst s) + 8 <? csize then EErr
       else
-        edo (_, s) <- r_u32 s;                        (* version and flags *)
-        edo ((es_ss, dc), s) <- decode_es s;
+        (* DecodeEsdsSR after repo fix 27ea537: payload := sr.ReadBytes(hdr.payloadLen()); the version/flags
+           word and the descriptors are read from a FixedSliceReader of their own over the payload of the
+           esds box (as DecodeEsds does), never from the bytes that follow the box *)
+        let payload := firstn (N.to_nat (csize - 8)) (fst s) in
+        edo (_, ps) <- r_u32 (payload, 0);            (* version and flags *)
+        edo ((es_ss, dc), ps) <- decode_es ps;
         let pos := 36 + (8 + 4 + es_ss) in            (* pos += box.Size() *)
         if pos <? size then EUnmodelled               (* another DecodeBoxSR *)
         else EOk (mkEntry dri cc ss rate dc).         (* pos >= lastPos ends the loop, no size check *)
